@@ -25,4 +25,16 @@ def gen(repo):
         val = int(d[0])
     if not re.search(r"screen->setDesktopSizeHook\s*=\s*rfbDefaultSetDesktopSize\s*;", src):
         raise RuntimeError("C16/T0: rfbGetScreen no longer installs rfbDefaultSetDesktopSize")
-    return "/-- return value of rfbDefaultSetDesktopSize (`return %s;`) -/\ndef defaultHookResult : Int := %d\n" % (name, val)
+    # does rfbNewFramebuffer raise newFBSizePending for every client it updates, or only for those that have
+    # already announced resize support?  (fixes/C16-late-setencodings-size.diff makes it unconditional)
+    m2 = re.search(r"\nvoid rfbNewFramebuffer\s*\(.*?\n\}\n", src, flags=re.S)
+    if not m2:
+        raise RuntimeError("C16/T0: rfbNewFramebuffer not found in main.c")
+    nb = re.sub(r"/\*.*?\*/", " ", m2.group(0), flags=re.S)
+    sets = re.findall(r"(if\s*\(\s*cl->useNewFBSize\s*\)\s*)?cl->newFBSizePending\s*=\s*TRUE\s*;", nb)
+    if len(sets) != 1:
+        raise RuntimeError("C16/T0: expected exactly one `cl->newFBSizePending = TRUE;` in rfbNewFramebuffer, found %d" % len(sets))
+    pend_all = "false" if sets[0] else "true"
+    extra = ("/-- rfbNewFramebuffer raises newFBSizePending for EVERY client it updates (true) or only for clients\n"
+             "that already announced NewFBSize / ExtendedDesktopSize (false) -/\ndef pendingForAll : Bool := %s\n" % pend_all)
+    return extra + "/-- return value of rfbDefaultSetDesktopSize (`return %s;`) -/\ndef defaultHookResult : Int := %d\n" % (name, val)
